@@ -10,7 +10,7 @@ m = {
  "hooks": {
   "guard": "BOOST_MQTT5_VERIF",
   "enable": "none needed: the checks parse /repo/include with clang libTooling and never build or run the library; the guard is unused",
-  "baseline_off_cmd": "cmake --build /repo/_build -j16 && ctest --test-dir /repo/_build -j8 --timeout 900",
+  "baseline_off_cmd": "cmake --build /repo/_build -j16 && ctest --test-dir /repo/_build/test -j8 --timeout 900",
   "source_commits": [],
   "add_only": True
  },
